@@ -5,11 +5,13 @@ package main
 
 import (
 	"encoding/binary"
+	"encoding/json"
 	"fmt"
 	"math/rand"
 	"sort"
 	"strconv"
 	"strings"
+	"time"
 
 	"github.com/absfs/absnfs"
 )
@@ -17,8 +19,64 @@ import (
 func init() {
 	checks["C05"] = func(r *Result, rng *rand.Rand, th bool) { checkHandles(r, rng, th, "C05") }
 	checks["C06"] = func(r *Result, rng *rand.Rand, th bool) { checkHandles(r, rng, th, "C06") }
-	replays["C05"] = opsReplay("handles", runHandleOps, func(r *Result, ops, impl []string) { handleOracle(r, ops, impl, "C05") })
-	replays["C06"] = opsReplay("handles", runHandleOps, func(r *Result, ops, impl []string) { handleOracle(r, ops, impl, "C06") })
+	for _, prop := range []string{"C05", "C06"} {
+		prop := prop
+		tableReplay := opsReplay("handles", runHandleOps, func(r *Result, ops, impl []string) { handleOracle(r, ops, impl, prop) })
+		served := caseReplay(func(c SrvCase) []Violation { return judgeServedHandles(c, prop) })
+		replays[prop] = func(r *Result, raw json.RawMessage) {
+			var rp struct {
+				Case *SrvCase `json:"case"`
+			}
+			if json.Unmarshal(raw, &rp) == nil && rp.Case != nil && len(rp.Case.Ops) > 0 {
+				served(r, raw)
+				return
+			}
+			tableReplay(r, raw)
+		}
+	}
+}
+
+// judgeServedHandles: the handles the *server* hands out (LOOKUP, CREATE, MKDIR, SYMLINK, READDIRPLUS entries, MNT in
+// any spelling of the path) over a namespace history: right after a reply carried a handle for a path, the table
+// resolves that value to that path (C05: live when issued; C06: it names that object and no other), and MNT of a
+// directory the client already holds a handle for returns that handle (C05: one per path).
+func judgeServedHandles(c SrvCase, prop string) []Violation {
+	w := c.world()
+	defer w.Close()
+	var vs []Violation
+	for i, o := range c.Ops {
+		before := len(w.handleBad)
+		held, had := w.handles[o.Dir]
+		fresh := had && w.inoAt[o.Dir] == w.inoOf(o.Dir)
+		r := w.do(o)
+		for _, b := range w.handleBad[before:] {
+			cls := prop + "/handle-names-other-path"
+			vs = append(vs, Violation{Class: cls, What: b, Detail: fmt.Sprintf("op %d: %s", i, o.String())})
+		}
+		if o.Kind == "mnt" && r.MntFh != 0 && fresh && held != r.MntFh && prop == "C05" {
+			vs = append(vs, Violation{Class: "C05/second-handle-for-one-path", What: fmt.Sprintf("MNT %q returned handle %d for %s while the handle %d given for that path is live", o.Target, r.MntFh, o.Dir, held),
+				Detail: fmt.Sprintf("op %d: %s", i, o.String())})
+		}
+	}
+	return vs
+}
+
+func servedHandles(r *Result, rng *rand.Rand, thorough bool, prop string) {
+	ncases, n := 60, 40
+	if thorough {
+		ncases, n = 600, 80
+	}
+	for i := 0; i < ncases; i++ {
+		g := &nsGen{depth: 2, withMnt: true, tight: i%3 == 2}
+		c := genNsCase(rng, 5+rng.Intn(n), g)
+		c.Cfg.AttrTTL = []time.Duration{time.Nanosecond, 5 * time.Second}[rng.Intn(2)]
+		vs := judgeServedHandles(c, prop)
+		r.noteCase(fmt.Sprint("served", c.strings()), true)
+		r.count("served-handles-history")
+		if len(vs) > 0 {
+			reportCase(r, c, vs, func(cc SrvCase) []Violation { return judgeServedHandles(cc, prop) })
+		}
+	}
 }
 
 // allocAux is what the oracle may know about one alloc beyond its output: the path the returned value
@@ -109,7 +167,7 @@ func handleOracle(r *Result, ops, impl []string, prop string) {
 	live := map[uint64]string{}   // reference: what must be live, from outputs only (updated from dumps)
 	issued := map[uint64]string{} // ghost: first path each id value was issued for
 	everFreed := map[uint64]bool{}
-	inFree := map[uint64]bool{} // shadow of the free list: values released or evicted since the last init / releaseall
+	inFree := map[uint64]bool{}   // shadow of the free list: values released or evicted since the last init / releaseall
 	holder := map[uint64]string{} // the path each value was handed out for most recently
 	var burst []struct {
 		h uint64
@@ -327,6 +385,7 @@ func checkHandles(r *Result, rng *rand.Rand, thorough bool, prop string) {
 	if prop == "C06" {
 		staleCheck(r, rng)
 	}
+	servedHandles(r, rng, thorough, prop)
 	compareWithModel(r, "handles", cases, impl, runHandleOps)
 }
 
